@@ -912,7 +912,6 @@ fn setup_finite(s: &SPDC) -> Result<(), String> {
     chk(&format!("{}_frequency", n), b.frequency().value_unsafe);
     chk(&format!("{}_wavelength", n), b.vacuum_wavelength().value_unsafe);
     chk(&format!("{}_index", n), *b.refractive_index(b.frequency(), c));
-    chk(&format!("{}_theta_external", n), b.theta_external(c).value_unsafe);
   }
   chk("signal_waist_position", s.signal_waist_position.value_unsafe);
   chk("idler_waist_position", s.idler_waist_position.value_unsafe);
@@ -930,6 +929,24 @@ fn setup_finite(s: &SPDC) -> Result<(), String> {
   } else {
     Err(bad.join(","))
   }
+}
+
+/// lengths, waists, bandwidths, powers, periods and temperatures inside their physical ranges (the
+/// statement's quantifier); the angles are free (±400°)
+fn physical(d: &Desc) -> bool {
+  // at least a micron of crystal and of beam waist, a picometre of bandwidth, a nanowatt of power
+  let len = |x: f64| x >= 1.0 && x.is_finite();
+  let mut ok = len(d.length) && len(d.p_waist) && d.p_bw >= 1e-3 && d.p_power >= 1e-6 && len(d.signal.waist) && d.temp > -273.15 && d.temp <= 500.0;
+  if let IdlerD::Cfg(b) = &d.idler {
+    ok = ok && len(b.waist);
+  }
+  if let PolingD::Cfg { period: AutoV::Val(p), apod } = &d.poling {
+    ok = ok && p.abs() >= 1e-3 && p.abs() <= 1e6;
+    if let Some(ApodD::Gaussian(f)) = apod {
+      ok = ok && *f > 0.0;
+    }
+  }
+  ok
 }
 
 fn in_window(d: &Desc, need_idler: bool) -> bool {
@@ -1076,7 +1093,10 @@ fn spectra_finite(s: &SPDC) -> Result<(), String> {
   let range: WavelengthSpace = Steps2D((ls * 0.998 * M, ls * 1.002 * M, 3), (li * 0.998 * M, li * 1.002 * M, 3)).into();
   let sp = s.joint_spectrum(integ);
   let mut bad = vec![];
-  if sp.jsa_range(range).iter().any(|z| !z.re.is_finite() || !z.im.is_finite()) {
+  let jsa = sp.jsa_range(range);
+  // the HOM rate is normalised by Σ|jsa|² over the grid
+  let all_zero = spdcalc::jsi_norm(&jsa) == 0.;
+  if jsa.iter().any(|z| !z.re.is_finite() || !z.im.is_finite()) {
     bad.push("jsa");
   }
   if sp.jsi_range(range).iter().any(|z| !z.value_unsafe.is_finite()) {
@@ -1093,7 +1113,7 @@ fn spectra_finite(s: &SPDC) -> Result<(), String> {
   }
   let delays: Vec<spdcalc::Time> = vec![-1e-13 * S, 0. * S, 1e-13 * S];
   if s.hom_rate_series(delays, range, integ).iter().any(|x| !x.is_finite()) {
-    bad.push("hom_rate_series");
+    bad.push(if all_zero { "hom_rate_series(zero-spectrum)" } else { "hom_rate_series" });
   }
   if bad.is_empty() {
     Ok(())
@@ -1238,6 +1258,60 @@ fn defaults_case(ctx: &mut Ctx, d: &Desc) {
   ctx.s("C16.defaults", ok, "defaults/omitted=documented", &format!("{} explicit={}", detail(d), e.json().to_string().replace(' ', "")));
 }
 
+/// The configured beam directions are unphysical: the signal (or an explicit idler) cannot be built,
+/// has no external angle (total internal reflection / beyond 90°), or the unpoled optimum idler
+/// for it has no finite angle.  Evaluated with public calls on the pieces of the real code.
+fn unphysical_beam(d: &Desc) -> bool {
+  let js = d.json().to_string();
+  let cfg: SPDCConfig = match guard(|| serde_json::from_str::<SPDCConfig>(&js).ok()).flatten() {
+    Some(c) => c,
+    None => return false,
+  };
+  let c0: CrystalSetup = cfg.crystal.clone().into();
+  let pump = cfg.pump.clone().as_beam(&c0);
+  if cfg.signal.theta_deg.is_some() == cfg.signal.theta_external_deg.is_some() {
+    return false;
+  }
+  let grazing = |te: Option<f64>| te.map(|x| x.abs() >= 89.0).unwrap_or(false);
+  let steep = |t: Option<f64>| t.map(|x| (x.rem_euclid(360.0) - 180.0).abs() <= 91.0).unwrap_or(false); // |θ| ≥ 89° after wrapping
+  if grazing(cfg.signal.theta_external_deg) || steep(cfg.signal.theta_deg) {
+    return true;
+  }
+  let sig = match guard(|| cfg.signal.clone().try_as_beam(&c0).ok()).flatten() {
+    Some(b) => b,
+    None => return true,
+  };
+  if !guard(|| sig.theta_external(&c0).value_unsafe).map(|x| x.is_finite()).unwrap_or(false) {
+    return true;
+  }
+  if sig.vacuum_wavelength() > pump.vacuum_wavelength() {
+    match guard(|| spdcalc::beam::IdlerBeam::try_new_optimum(&sig, &pump, &c0, PeriodicPoling::Off)) {
+      Some(Ok(i)) => {
+        if !i.theta_internal().value_unsafe.is_finite() {
+          return true;
+        }
+      }
+      _ => return true,
+    }
+  }
+  if let AutoCalcParam::Param(ic) = &cfg.idler {
+    if ic.theta_deg.is_some() != ic.theta_external_deg.is_some() {
+      if grazing(ic.theta_external_deg) || steep(ic.theta_deg) {
+        return true;
+      }
+      match guard(|| ic.clone().try_as_beam(&c0).ok()).flatten() {
+        Some(b) => {
+          if !guard(|| b.theta_external(&c0).value_unsafe).map(|x| x.is_finite()).unwrap_or(false) {
+            return true;
+          }
+        }
+        None => return true,
+      }
+    }
+  }
+  false
+}
+
 /// C17 on one descriptor of the malformed stream
 fn c17_case(ctx: &mut Ctx, d: &Desc, tag: &str, spectra: bool) {
   if std::env::var("VERIF_PANIC_LOG").is_ok() {
@@ -1261,16 +1335,19 @@ fn c17_case(ctx: &mut Ctx, d: &Desc, tag: &str, spectra: bool) {
     (Some(Err(_)), Some(false)) => true,
     _ => false,
   };
-  let guarded = in_window(d, false);
-  ctx.count(&format!("malformed/in-window={}", guarded));
+  let guarded = in_window(d, false) && physical(d);
+  ctx.count(&format!("malformed/in-domain={}", guarded));
   if !guarded {
     return;
   }
   let ls_le_lp = d.signal.wl <= d.p_wl;
+  let unphys = unphysical_beam(d);
+  ctx.count(&format!("malformed/beam-angle-unphysical={}", unphys));
+  let cls = |base: &str| if unphys { format!("{}/beam-angle-unphysical", base) } else { base.to_string() };
   match &run.outcome {
     None => {
-      let sig = if ls_le_lp { "construct/panic/ls<=lp" } else { "construct/panic" };
-      ctx.s("C17.no_panic", false, sig, &det);
+      let sig = if ls_le_lp { "construct/panic/ls<=lp".to_string() } else { cls("construct/panic") };
+      ctx.s("C17.no_panic", false, &sig, &det);
     }
     Some(Err(_)) => ctx.s("C17.no_panic", same, "construct/err", &det),
     Some(Ok(s)) => {
@@ -1278,14 +1355,22 @@ fn c17_case(ctx: &mut Ctx, d: &Desc, tag: &str, spectra: bool) {
       if in_window(d, true) {
         match guard(|| setup_finite(s)) {
           Some(Ok(())) => ctx.s("C17.finite", true, "setup/finite", &det),
-          Some(Err(why)) => ctx.s("C17.finite", false, "setup/non-finite", &format!("bad={} {}", why, det)),
-          None => ctx.s("C17.finite", false, "setup/getter-panic", &det),
+          Some(Err(why)) => ctx.s("C17.finite", false, &cls("setup/non-finite"), &format!("bad={} {}", why, det)),
+          None => ctx.s("C17.finite", false, &cls("setup/getter-panic"), &det),
         }
         if spectra {
           match guard(|| spectra_finite(s)) {
             Some(Ok(())) => ctx.s("C17.spectra", true, "spectra/finite", &det),
-            Some(Err(why)) => ctx.s("C17.spectra", false, "spectra/non-finite", &format!("bad={} {}", why, det)),
-            None => ctx.s("C17.spectra", false, "spectra/panic", &det),
+            Some(Err(why)) => {
+              let sig = if why == "hom_rate_series(zero-spectrum)" { "spectra/non-finite/hom-zero-spectrum".to_string() } else { cls("spectra/non-finite") };
+              ctx.s("C17.spectra", false, &sig, &format!("bad={} {}", why, det));
+            }
+            None => {
+              // JointSpectrum::new unwraps try_as_optimum
+              let no_opt = guard(|| s.clone().try_as_optimum().is_err()).unwrap_or(true);
+              let sig = if unphys { cls("spectra/panic") } else if no_opt { "spectra/panic/no-optimum-setup".to_string() } else { "spectra/panic".to_string() };
+              ctx.s("C17.spectra", false, &sig, &det);
+            }
           }
         }
       }
@@ -1299,7 +1384,8 @@ fn c17_case(ctx: &mut Ctx, d: &Desc, tag: &str, spectra: bool) {
   }
   let auto_theta = matches!(d.c_theta, AutoV::Auto | AutoV::Absent);
   if auto_theta && matches!(d.poling, PolingD::Cfg { .. }) {
-    ctx.s("C17.listed", is_err, if ls_le_lp { "listed/autotheta+pp/ls<=lp" } else { "listed/autotheta+pp" }, &det);
+    let sig = if ls_le_lp { "listed/autotheta+pp/ls<=lp".to_string() } else if run.outcome.is_none() { cls("listed/autotheta+pp") } else { "listed/autotheta+pp".to_string() };
+    ctx.s("C17.listed", is_err, &sig, &det);
   }
   if ls_le_lp {
     ctx.s("C17.listed", is_err, "listed/ls<=lp", &det);
